@@ -127,8 +127,10 @@ def step (st : St) (ts : List String) : Option St :=
     let (r, c) := run st.ctx (.load (bs name) (if rev == "-" then none else some (bs rev)) (parseFeatArg f))
     pure (snapshot { st with ctx := c } (if rcOf r == 0 then 0 else 1))
   | "I" :: name :: rev :: f :: _ =>
-    let (r, c) := run st.ctx (.setImpl (bs name, dash rev) (parseFeatArg f))
-    pure (snapshot { st with ctx := c } (rcOf r))
+    if (st.ctx.find (bs name, dash rev)).isNone then pure (snapshot st 99)      -- no such module: nothing is called
+    else
+      let (r, c) := run st.ctx (.setImpl (bs name, dash rev) (parseFeatArg f))
+      pure (snapshot { st with ctx := c } (rcOf r))
   | "C" :: _ =>
     let (r, c) := run st.ctx .compile
     pure (snapshot { st with ctx := c } (rcOf r))
